@@ -102,3 +102,66 @@ def arrays_of(mesh):
     return dict(n=len(mesh.sites), edges=np.asarray(em.edges), length=np.asarray(em.edge_lengths, dtype=float),
                 dual=np.asarray(em.dual_edge_lengths, dtype=float), area=np.asarray(mesh.areas, dtype=float),
                 bidx=np.asarray(em.boundary_edge_indices), directions=np.asarray(em.directions, dtype=float))
+
+
+# ------------------------------------------------------------------ weights from first principles
+
+
+def geometry(sites, elements):
+    """The weights of the finite-volume scheme from the raw triangulation alone (docs/background.rst, "Finite volume
+    method": e_ij = |r_j - r_i|; s_ij = the side of the Voronoi (circumcentric dual) cell that crosses edge (i, j); a_i = the
+    area of the Voronoi cell of site i inside the film), NOT read back from a tdgl Mesh:
+
+      every triangle (i, j, k) contributes to its edge (i, j) the distance from the edge midpoint to the circumcentre,
+      e_ij cot(angle at k) / 2, and to the cells of i and of j the triangle (site, midpoint, circumcentre),
+      e_ij^2 cot(angle at k) / 8 each.
+
+    Returns dict(edges (m, 2) sorted pairs in lexicographic order, length, dual, area, boundary (bool per edge),
+    regular (bool per edge: boundary edge not encroached [opposite angle <= 90 deg] / interior edge locally Delaunay),
+    well_centred (bool per site: the circumcentric construction IS the Voronoi cell clipped to the film, i.e. every
+    edge of every incident triangle is regular), reflex (bool per site: boundary site where the film's interior angle
+    exceeds 180 deg)).  Where `regular` / `well_centred` is False the circumcentric dual is not the Voronoi diagram and the
+    comparison with the package says nothing; the flags are computed from the coordinates alone."""
+    S = np.asarray(sites, dtype=float)
+    T = np.asarray(elements, dtype=np.int64)
+    cots = {}
+    for t in range(len(T)):
+        for a in range(3):
+            i, j, k = int(T[t, a]), int(T[t, (a + 1) % 3]), int(T[t, (a + 2) % 3])
+            u, v = S[i] - S[k], S[j] - S[k]
+            cross = u[0] * v[1] - u[1] * v[0]
+            cots.setdefault((min(i, j), max(i, j)), []).append((t, float(u @ v) / abs(float(cross))))
+    edges = np.array(sorted(cots), dtype=np.int64)
+    m, n = len(edges), len(S)
+    length = np.linalg.norm(S[edges[:, 1]] - S[edges[:, 0]], axis=1)
+    w = np.array([sum(c for _, c in cots[tuple(e)]) / 2 for e in edges])
+    boundary = np.array([len(cots[tuple(e)]) == 1 for e in edges])
+    dual = length * w
+    area = np.zeros(n)
+    np.add.at(area, edges[:, 0], length ** 2 * w / 4)
+    np.add.at(area, edges[:, 1], length ** 2 * w / 4)
+    eps = 1e-9
+    regular = w >= -eps
+    bad_tri = set()
+    for e, ok in zip(edges, regular):
+        if not ok:
+            bad_tri.update(t for t, _ in cots[tuple(e)])
+    well = np.ones(n, dtype=bool)
+    for t in bad_tri:
+        well[T[t]] = False
+    # a right angle opposite a boundary edge puts the circumcentre ON the boundary: degenerate, excluded as well
+    for e, b in zip(edges, boundary):
+        if b and abs(cots[tuple(e)][0][1]) <= eps:
+            well[T[cots[tuple(e)][0][0]]] = False
+    # interior angle of the film at each boundary site = sum of the incident triangle angles
+    angle = np.zeros(n)
+    for t in range(len(T)):
+        for a in range(3):
+            i, j, k = int(T[t, a]), int(T[t, (a + 1) % 3]), int(T[t, (a + 2) % 3])
+            u, v = S[j] - S[i], S[k] - S[i]
+            angle[i] += np.arctan2(abs(u[0] * v[1] - u[1] * v[0]), float(u @ v))
+    bsites = np.zeros(n, dtype=bool)
+    bsites[edges[boundary].ravel()] = True
+    reflex = bsites & (angle > np.pi * (1 + 1e-6))
+    return dict(edges=edges, length=length, dual=dual, area=area, boundary=boundary, regular=regular,
+                well_centred=well, reflex=reflex)
